@@ -1,0 +1,8 @@
+//go:build !verif
+
+package uasc
+
+// verifPoint is a no-op unless the package is built with -tags verif.
+func verifPoint(point string, s *SecureChannel, kv ...any) {}
+
+func verifSeqOff(m *Message) int { return 0 }
